@@ -20,15 +20,15 @@ theorem eval_ok {env : FcEnv} {t : Expr} (hf : FcExpr t = true) (hk : ∀ k ∈ 
   | leaf a =>
     cases a with
     | cond k =>
-      have := hk k (by simp [condKeys, Expr.atoms])
+      have := hk k (by simp [condKeys, Expr.atoms, Atom.condKey?])
       cases he : env k with
       | none => simp [he] at this
       | some r => exact ⟨r, by simp [evalFc, he], by simp [boolSem, he]⟩
     | pkg k r => simp [FcExpr] at hf
     | time k => simp [FcExpr] at hf
   | bin o l r ihl ihr =>
-    have hkl : ∀ k ∈ condKeys l, (env k).isSome := fun k h => hk k (by simp [condKeys, Expr.atoms, List.filterMap_append] at h ⊢; exact Or.inl h)
-    have hkr : ∀ k ∈ condKeys r, (env k).isSome := fun k h => hk k (by simp [condKeys, Expr.atoms, List.filterMap_append] at h ⊢; exact Or.inr h)
+    have hkl : ∀ k ∈ condKeys l, (env k).isSome := fun k h => hk k (by simp [condKeys, Expr.atoms, List.filterMap_append, Atom.condKey?] at h ⊢; exact Or.inl h)
+    have hkr : ∀ k ∈ condKeys r, (env k).isSome := fun k h => hk k (by simp [condKeys, Expr.atoms, List.filterMap_append, Atom.condKey?] at h ⊢; exact Or.inr h)
     cases o with
     | then_ => simp [FcExpr] at hf
     | and_ =>
